@@ -55,7 +55,8 @@ func runProc(dir string, horizon time.Duration, bin string, args ...string) Resu
 	cmd.SysProcAttr = &syscall.SysProcAttr{Setpgid: true}
 	start := time.Now()
 	if err := cmd.Start(); err != nil {
-		return Result{Exit: 127, Stderr: err.Error(), ViaCLI: true}
+		fmt.Fprintf(os.Stderr, "HARNESS-INCONSISTENT: cannot start %s: %v\n", bin, err)
+		os.Exit(3)
 	}
 	done := make(chan error, 1)
 	go func() { done <- cmd.Wait() }()
@@ -81,6 +82,12 @@ func runProc(dir string, horizon time.Duration, bin string, args ...string) Resu
 	}
 	res.Elapsed = time.Since(start)
 	res.Stdout, res.Stderr = clip(so.String()), clip(se.String())
+	if res.Exit == 127 || res.Exit == 126 {
+		if _, err := os.Stat(bin); err != nil {
+			fmt.Fprintf(os.Stderr, "HARNESS-INCONSISTENT: the generator binary %s disappeared while the check was running\n", bin)
+			os.Exit(3)
+		}
+	}
 	return res
 }
 
